@@ -269,6 +269,9 @@ type etaScenario struct {
 	fun     string // callee class
 	same    bool   // types identical
 	may     bool   // replacement preserves meaning
+	// partSame: answer for a comparison of only the result tuples / only the parameter tuples
+	// ("" = same as `same`): a comparison of a part must not stand in for the whole type
+	resSame, parSame string
 }
 
 func (r *rwRT) ruleOptEta() {
@@ -335,6 +338,8 @@ func (r *rwRT) ruleOptEta() {
 		{name: "argument is another variable of the same name", params: ok2("a"), args: []string{"a"}, argObjs: []string{"other"}, fun: "func", same: true},
 		{name: "argument is not an identifier f(g(a))", params: ok2("a"), args: []string{"#call"}, fun: "func", same: true},
 		{name: "types differ (func(x int) any { return f(x) })", params: ok2("a"), args: []string{"a"}, fun: "func", same: false},
+		{name: "parameter types differ, results identical (func(x int) string { return f(x) }, f func(any) string)", params: ok2("a"), args: []string{"a"}, fun: "func", same: false, resSame: "true", parSame: "false"},
+		{name: "result types differ, parameters identical (func(x int) any { return f(x) }, f func(int) int)", params: ok2("a"), args: []string{"a"}, fun: "func", same: false, resSame: "false", parSame: "true"},
 		{name: "variadic closure passing the slice f(xs)", params: ok2("xs"), args: []string{"xs"}, variadic: true, ellipsis: false, fun: "func", same: true},
 		{name: "variadic closure spreading f(xs...)", params: ok2("xs"), args: []string{"xs"}, variadic: true, ellipsis: true, fun: "func", same: true, may: true},
 		{name: "callee is a function variable", params: ok2("a"), args: []string{"a"}, fun: "var", same: true},
@@ -500,7 +505,23 @@ func (r *rwRT) ruleOptEta() {
 				}
 				return []Answer{{Ret: []AV{Dyn{T: tptr("Signature"), V: Sym{Name: "type:" + unwrap(a).String(), NN: true}}}, NoEvent: true}}
 			case "Identical":
-				return []Answer{{Ret: []AV{mkBool(same)}, NoEvent: true}}
+				ans := same
+				if len(cc.Args) == 2 {
+					a0, a1 := argLabel(cc.Args[0]), argLabel(cc.Args[1])
+					switch {
+					case strings.HasPrefix(a0, "results:") && strings.HasPrefix(a1, "results:") && sc.resSame != "":
+						ans = sc.resSame == "true"
+					case strings.HasPrefix(a0, "params:") && strings.HasPrefix(a1, "params:") && sc.parSame != "":
+						ans = sc.parSame == "true"
+					}
+				}
+				return []Answer{{Ret: []AV{mkBool(ans)}, NoEvent: true}}
+			case "Results", "Params":
+				if len(cc.Args) == 1 {
+					if sy, ok := unwrap(cc.Args[0]).(Sym); ok && (strings.HasPrefix(sy.Name, "type:") || strings.HasPrefix(sy.Name, "sig:")) {
+						return []Answer{{Ret: []AV{Sym{Name: strings.ToLower(cc.Fn.Name()) + ":" + sy.Name, NN: true}}, NoEvent: true}}
+					}
+				}
 			case "Type":
 				if len(cc.Args) == 1 {
 					a0 := unwrap(cc.Args[0])
